@@ -629,3 +629,369 @@ Proof.
 Qed.
 
 End Loops.
+
+(* ------------------------------------------------------------ the judge on a log of the expected shape *)
+Section Shape.
+Variables (l : N) (sc : scn).
+Hypothesis V : valid_level sc = true.
+
+Lemma before_first_sat p (X : list pev) : Forall (fun e => p e = true) X -> before_first p X = [].
+Proof. intros F. destruct F; simpl; [reflexivity|]. rewrite H. reflexivity. Qed.
+
+Lemma pt_is p q (X : list pev) : Forall (fun e => e_pt e = p) X -> N.eqb p q = false ->
+  Forall (fun e => is_pt q e = false) X.
+Proof. intros F H. eapply Forall_impl; [|exact F]. intros e E. unfold is_pt. rewrite E. exact H. Qed.
+Lemma pt_is_t p (X : list pev) : Forall (fun e => e_pt e = p) X -> Forall (fun e => is_pt p e = true) X.
+Proof. intros F. eapply Forall_impl; [|exact F]. intros e E. unfold is_pt. rewrite E. apply N.eqb_refl. Qed.
+
+Lemma judge_own_shape (tw : bool) (Lc Lr Ln Lf : list pev) (rest : list N) :
+  let p := if tw then P_OVER_OUT else P_RENDERER in
+  Forall (fun e => e_cur e = true) (Lc ++ Lr ++ Ln ++ Lf) ->
+  Forall (fun e => is_pt P_RESP_CB e = false /\ is_pt P_NEWRESP e = false /\ is_pt P_FIN_CB e = false) Lc ->
+  Forall (fun e => e_pt e = P_RESP_CB) Lr -> Forall (fun e => e_pt e = P_NEWRESP) Ln ->
+  Forall (fun e => e_pt e = P_FIN_CB) Lf ->
+  reg0 0 (s_regs sc) Lc ++ registered_from 0 (s_regs sc) 0 0 Lr = map e_aux Lr ++ rest ->
+  (existsb (is_pt p) Lc && negb (has_fault sc p) = false -> Lr = [] /\ Ln = []) ->
+  (length Ln <= 1)%nat ->
+  (existsb (is_pt p) Lc && negb (has_fault sc p) = true -> has_fault sc P_RESP_CB = false ->
+     rest = [] /\ length Ln = 1%nat) ->
+  (has_fault sc P_FIN_CB = false ->
+     registered 1 (s_regs sc) (Lc ++ Lr ++ Ln) ++ registered_from 1 (s_regs sc) 0 0 Lf = map e_aux Lf) ->
+  judge_own l sc tw (Lc ++ Lr ++ Ln ++ Lf) = true.
+Proof.
+  intros p Hcur Hc Hr Hn Hf Hreg Hno Hn1 Hyes Hfin.
+  assert (Hc16 : Forall (fun e => is_pt P_RESP_CB e = false) Lc) by (eapply Forall_impl; [|exact Hc]; intros e H; apply H).
+  assert (Hc17 : Forall (fun e => is_pt P_NEWRESP e = false) Lc) by (eapply Forall_impl; [|exact Hc]; intros e H; apply H).
+  assert (Hc18 : Forall (fun e => is_pt P_FIN_CB e = false) Lc) by (eapply Forall_impl; [|exact Hc]; intros e H; apply H).
+  assert (F18 : filter (is_pt P_FIN_CB) (Lc ++ Lr ++ Ln ++ Lf) = Lf).
+  { rewrite !filter_app, (filter_none _ Lc Hc18), (filter_none _ Lr (pt_is _ P_FIN_CB _ Hr eq_refl)),
+      (filter_none _ Ln (pt_is _ P_FIN_CB _ Hn eq_refl)), (filter_all _ Lf (pt_is_t _ _ Hf)). reflexivity. }
+  assert (F16 : filter (is_pt P_RESP_CB) (Lc ++ Lr ++ Ln ++ Lf) = Lr).
+  { rewrite !filter_app, (filter_none _ Lc Hc16), (filter_all _ Lr (pt_is_t _ _ Hr)),
+      (filter_none _ Ln (pt_is _ P_RESP_CB _ Hn eq_refl)), (filter_none _ Lf (pt_is _ P_RESP_CB _ Hf eq_refl)).
+    rewrite app_nil_r. reflexivity. }
+  assert (F17 : filter (is_pt P_NEWRESP) (Lc ++ Lr ++ Ln ++ Lf) = Ln).
+  { rewrite !filter_app, (filter_none _ Lc Hc17), (filter_none _ Lr (pt_is _ P_NEWRESP _ Hr eq_refl)),
+      (filter_all _ Ln (pt_is_t _ _ Hn)), (filter_none _ Lf (pt_is _ P_NEWRESP _ Hf eq_refl)).
+    rewrite app_nil_r. reflexivity. }
+  assert (Pne : N.eqb P_RESP_CB p = false /\ N.eqb P_NEWRESP p = false /\ N.eqb P_FIN_CB p = false)
+    by (subst p; destruct tw; repeat split; reflexivity).
+  destruct Pne as [Pn1 [Pn2 Pn3]].
+  assert (EX : existsb (is_pt p) (Lc ++ Lr ++ Ln ++ Lf) = existsb (is_pt p) Lc).
+  { rewrite !existsb_app, (existsb_none _ Lr (pt_is _ _ _ Hr Pn1)), (existsb_none _ Ln (pt_is _ _ _ Hn Pn2)),
+      (existsb_none _ Lf (pt_is _ _ _ Hf Pn3)). rewrite !orb_false_r. reflexivity. }
+  assert (Q78 : forall X, Forall (fun e => e_pt e = P_NEWRESP) X \/ Forall (fun e => e_pt e = P_FIN_CB) X ->
+                Forall (fun e => is_pt P_NEWRESP e || is_pt P_FIN_CB e = true) X).
+  { intros X [H|H]; eapply Forall_impl; try exact H; intros e E; unfold is_pt; rewrite E; reflexivity. }
+  assert (Qnf : Forall (fun e => is_pt P_NEWRESP e || is_pt P_FIN_CB e = true) (Ln ++ Lf))
+    by (apply Forall_app; split; apply Q78; auto).
+  assert (Qcr : Forall (fun e => is_pt P_NEWRESP e || is_pt P_FIN_CB e = false) (Lc ++ Lr)).
+  { apply Forall_app; split.
+    - eapply Forall_impl; [|exact Hc]. intros e [_ [H1 H2]]. rewrite H1, H2. reflexivity.
+    - eapply Forall_impl; [|exact Hr]. intros e E. unfold is_pt. rewrite E. reflexivity. }
+  assert (BF : before_first (fun e => is_pt P_NEWRESP e || is_pt P_FIN_CB e) (Lc ++ Lr ++ Ln ++ Lf) = Lc ++ Lr).
+  { rewrite (app_assoc Lc Lr), (before_first_app _ (Lc ++ Lr) (Ln ++ Lf) Qcr), (before_first_sat _ _ Qnf).
+    apply app_nil_r. }
+  assert (Ncb : Forall (fun e => is_cb (e_pt e) = false) Lc).
+  { eapply Forall_impl; [|exact Hc]. intros e [H1 [_ H3]]. unfold is_cb. unfold is_pt in H1, H3.
+    change 16 with P_RESP_CB. change 18 with P_FIN_CB. rewrite H1, H3. reflexivity. }
+  assert (Z16c : cnt 16 Lc = 0)
+    by (unfold cnt; change (is_pt 16) with (is_pt P_RESP_CB); rewrite (filter_none _ Lc Hc16); reflexivity).
+  assert (Z18c : cnt 18 Lc = 0)
+    by (unfold cnt; change (is_pt 18) with (is_pt P_FIN_CB); rewrite (filter_none _ Lc Hc18); reflexivity).
+  assert (RR : registered 0 (s_regs sc) (Lc ++ Lr) = map e_aux Lr ++ rest).
+  { unfold registered. rewrite registered_from_app, Z16c, Z18c, (registered_from_nocb _ _ Lc Ncb). exact Hreg. }
+  assert (Z18x : cnt 18 (Lc ++ Lr ++ Ln) = 0).
+  { unfold cnt. change (is_pt 18) with (is_pt P_FIN_CB).
+    rewrite !filter_app, (filter_none _ Lc Hc18), (filter_none _ Lr (pt_is _ P_FIN_CB _ Hr eq_refl)),
+      (filter_none _ Ln (pt_is _ P_FIN_CB _ Hn eq_refl)). reflexivity. }
+  assert (R1 : registered 1 (s_regs sc) (Lc ++ Lr ++ Ln ++ Lf) =
+               registered 1 (s_regs sc) (Lc ++ Lr ++ Ln) ++ registered_from 1 (s_regs sc) 0 0 Lf).
+  { unfold registered. rewrite (app_assoc Lr), (app_assoc Lc), registered_from_app, Z18x.
+    f_equal. apply registered_from_fin. exact Hf. }
+  assert (FF1 : from_first (is_pt P_FIN_CB) (is_pt P_FIN_CB) (Lc ++ Lr ++ Ln ++ Lf) = true).
+  { rewrite (app_assoc Lr), (app_assoc Lc). rewrite from_first_app.
+    - apply from_first_forall. apply pt_is_t. exact Hf.
+    - repeat (apply Forall_app; split); auto.
+      + apply (pt_is _ P_FIN_CB _ Hr eq_refl).
+      + apply (pt_is _ P_FIN_CB _ Hn eq_refl). }
+  assert (FF2 : from_first (is_pt P_NEWRESP) (fun e => is_pt P_NEWRESP e || is_pt P_FIN_CB e)
+                           (Lc ++ Lr ++ Ln ++ Lf) = true).
+  { rewrite (app_assoc Lc Lr). rewrite from_first_app.
+    - apply from_first_forall. exact Qnf.
+    - apply Forall_app; split; [exact Hc17|apply (pt_is _ P_NEWRESP _ Hr eq_refl)]. }
+  unfold judge_own. cbv zeta. fold p. rewrite F18, F16, F17, EX, BF, RR, R1, FF1, FF2.
+  assert (C1 : forallb (fun e => negb (is_pt P_VIEW e || is_pt P_EXCVIEW e || is_pt P_EXCVIEW_HTTP e) || e_cur e) (Lc ++ Lr ++ Ln ++ Lf) = true).
+  { apply forallb_forall. rewrite Forall_forall in Hcur. intros e I. rewrite (Hcur _ I). apply orb_true_r. }
+  rewrite C1. cbn [andb].
+  assert (C2 : has_fault sc P_FIN_CB ||
+               (list_eqb (map e_aux Lf) (registered 1 (s_regs sc) (Lc ++ Lr ++ Ln) ++ registered_from 1 (s_regs sc) 0 0 Lf) && true) = true).
+  { destruct (has_fault sc P_FIN_CB) eqn:HF; [reflexivity|]. rewrite (Hfin eq_refl), list_eqb_refl. reflexivity. }
+  rewrite C2. cbn [andb].
+  destruct (existsb (is_pt p) Lc && negb (has_fault sc p)) eqn:CO.
+  - destruct (has_fault sc P_RESP_CB) eqn:HR.
+    + rewrite is_prefix_app. apply Nat.leb_le in Hn1. rewrite Hn1. reflexivity.
+    + destruct (Hyes eq_refl eq_refl) as [-> HL]. rewrite app_nil_r, list_eqb_refl, HL. reflexivity.
+  - destruct (Hno eq_refl) as [-> ->]. reflexivity.
+Qed.
+
+End Shape.
+
+
+(* ------------------------------------------------------------ one request *)
+Lemma nocb_of (X : list pev) :
+  Forall (fun e => is_pt P_RESP_CB e = false /\ is_pt P_NEWRESP e = false /\ is_pt P_FIN_CB e = false) X ->
+  Forall (fun e => is_cb (e_pt e) = false) X /\ cnt 16 X = 0 /\ cnt 18 X = 0.
+Proof.
+  intros H. split; [|split].
+  - eapply Forall_impl; [|exact H]. intros e [H1 [_ H3]]. unfold is_cb. unfold is_pt in H1, H3.
+    change 16 with P_RESP_CB. change 18 with P_FIN_CB. rewrite H1, H3. reflexivity.
+  - unfold cnt. change (is_pt 16) with (is_pt P_RESP_CB). rewrite filter_none; [reflexivity|].
+    eapply Forall_impl; [|exact H]. intros e H1; apply H1.
+  - unfold cnt. change (is_pt 18) with (is_pt P_FIN_CB). rewrite filter_none; [reflexivity|].
+    eapply Forall_impl; [|exact H]. intros e H1; apply H1.
+Qed.
+
+Section Request.
+Variables (l : N) (sc : scn).
+Hypothesis V : valid_level sc = true.
+Variable P : list pev -> Prop.
+Variable subrun : option M.
+Hypothesis Hsub : forall sr, subrun = Some sr -> pres (Rsub l P) sr.
+
+Definition A16 (q : N) : bool := negb (memN q [P_RESP_CB; P_NEWRESP; P_FIN_CB]).
+Definition Anot (p q : N) : bool := negb (N.eqb q p).
+
+Ltac covtac := let q := fresh "q" in let Hq := fresh "Hq" in
+  intros q Hq; simpl in Hq; repeat (destruct Hq as [<-|Hq]; [reflexivity|]); destruct Hq.
+
+Lemma pres_chain (ev : N) (tw : bool) : pres (Rs l sc P A16) (invoke_chain ev l sc tw subrun).
+Proof.
+  unfold invoke_chain. destruct tw.
+  - unfold tween_chain. apply pres_tween; try reflexivity.
+    eapply pres_excview_part; [exact Hsub|covtac].
+  - eapply pres_handle_request; [exact Hsub|covtac].
+Qed.
+
+Lemma NoP_hit p pt aux n mf : N.eqb pt p = false -> N.eqb pt P_VIEW || is_cb pt = false ->
+  pres (NoP l p) (hit l sc pt aux n mf).
+Proof.
+  intros H HV. eapply NoP_of; [apply (pres_hit l sc (Anot p)); [unfold Anot; rewrite H; reflexivity|exact HV]|].
+  unfold Anot. rewrite N.eqb_refl. reflexivity.
+Qed.
+
+Lemma LP_chain (ev : N) (tw : bool) : LP l sc (if tw then P_OVER_OUT else P_RENDERER) (invoke_chain ev l sc tw subrun).
+Proof.
+  unfold invoke_chain. destruct tw.
+  - unfold tween_chain, tween.
+    apply LP_seq; [apply NoP_hit; reflexivity|].
+    apply LP_bind.
+    + eapply NoP_of; [eapply (pres_excview_part l sc P subrun Hsub (Anot P_OVER_OUT)); covtac|reflexivity].
+    + intros r. apply LP_last; [exact V|reflexivity|reflexivity].
+  - unfold handle_request.
+    apply LP_seq; [apply NoP_hit; reflexivity|].
+    apply LP_bind.
+    { destruct (s_route sc); [apply NoP_hit; reflexivity|].
+      eapply NoP_of; [apply (pres_ret l sc (Anot P_RENDERER) never)|reflexivity]. }
+    intros matched.
+    apply LP_seq; [apply NoP_hit; reflexivity|].
+    apply LP_seq; [destruct (N.eqb matched 0); apply NoP_hit; reflexivity|].
+    apply LP_seq; [apply NoP_hit; reflexivity|].
+    apply LP_seq; [apply NoP_hit; reflexivity|].
+    unfold derived_view.
+    apply LP_bind; [apply NoP_hit; reflexivity|]. intros ok.
+    apply LP_if; [apply LP_raise|].
+    apply LP_bind; [apply NoP_hit; reflexivity|]. intros ok2.
+    apply LP_if; [apply LP_raise|].
+    apply LP_seq.
+    + eapply NoP_of; [eapply (pres_view_body l sc P subrun Hsub (Anot P_RENDERER)); reflexivity|reflexivity].
+    + apply LP_last; [exact V|reflexivity|reflexivity].
+Qed.
+
+Lemma Forall_filter {A} (Q : A -> Prop) (f : A -> bool) (X : list A) : Forall Q X -> Forall Q (filter f X).
+Proof. induction 1; simpl; [constructor|]. destruct (f x); [constructor|]; auto. Qed.
+
+Lemma own_all (X : list pev) : Forall (fun e => e_lvl e = l) X -> lvl_log l X = X /\ ge_log (l + 1) X = [].
+Proof.
+  intros F. split.
+  - apply filter_all. eapply Forall_impl; [|exact F]. intros e E. simpl. rewrite E. apply N.eqb_refl.
+  - apply filter_none. eapply Forall_impl; [|exact F]. intros e E. simpl. rewrite E. apply N.leb_gt. lia.
+Qed.
+
+(* after the tween chain: response callbacks and NewResponse (only when it returned) *)
+Lemma after_chain (rc : res) (st_c st_m : state) (r_m : res) :
+  match rc with
+  | Ok v => seq (resp_loop l sc) (seq (hit0 l sc P_NEWRESP) (ret v)) st_c = (st_m, r_m)
+  | Ex k => (st_c, Ex k) = (st_m, r_m)
+  end ->
+  exists Lr Ln rest,
+    log st_m = log st_c ++ Lr ++ Ln /\
+    Forall (fun e => e_pt e = P_RESP_CB /\ e_lvl e = l) Lr /\
+    Forall (fun e => e_pt e = P_NEWRESP /\ e_lvl e = l) Ln /\ (length Ln <= 1)%nat /\
+    rq st_c ++ registered_from 0 (s_regs sc) (nr st_c) 0 Lr = map e_aux Lr ++ rest /\
+    fq st_m = fq st_c ++ registered_from 1 (s_regs sc) (nr st_c) 0 (Lr ++ Ln) /\ nf st_m = nf st_c /\
+    (is_ok rc = false -> Lr = [] /\ Ln = []) /\
+    (is_ok rc = true -> has_fault sc P_RESP_CB = false -> rest = [] /\ length Ln = 1%nat).
+Proof.
+  destruct rc as [v|k]; intros E.
+  - unfold seq, bind, resp_loop in E.
+    match type of E with context [resp_cbs ?fu l sc st_c] => destruct (resp_cbs fu l sc st_c) as [st_r r_r] eqn:Er end.
+    destruct (resp_spec l sc V _ _ _ _ (Nat.lt_succ_diag_r _) Er) as [Lr [rest [A1 [A2 [A3 [A4 [A6 A5]]]]]]].
+    destruct A5 as [[-> ->]|[k [-> HF]]].
+    + destruct (hit0 l sc P_NEWRESP st_r) as [st_n r_n] eqn:Eh. unfold hit0 in Eh.
+      pose proof (hit_state _ _ _ _ _ _ _ _ _ Eh) as S1.
+      destruct (do_regs_spec (s_regs sc) P_NEWRESP 0 (log_ev l P_NEWRESP 0 st_r)) as [_ [B [_ [N2 [_ D]]]]].
+      set (e0 := mkEv P_NEWRESP l (N.of_nat (length (stk st_r))) (top_is l (stk st_r)) 0).
+      assert (st_m = st_n) as -> by (destruct r_n; unfold ret in E; injection E as <- _; reflexivity).
+      assert (U : forall cr cf, registered_from 1 (s_regs sc) cr cf [e0] = regsfor 1 (s_regs sc) P_NEWRESP 0).
+      { intros cr cf. unfold e0. simpl. rewrite app_nil_r. apply regsfor_noncb. reflexivity. }
+      exists Lr, [e0], [].
+      split; [rewrite S1, B; simpl; rewrite A2, <- app_assoc; reflexivity|].
+      split; [exact A3|]. split; [constructor; [split; reflexivity|constructor]|].
+      split; [simpl; lia|]. split; [exact A1|].
+      split; [rewrite S1, D; simpl; rewrite A4, registered_from_app, U, <- app_assoc; reflexivity|].
+      split; [rewrite S1, N2; simpl; exact A6|].
+      split; [intros X; discriminate X|]. intros _ _. split; reflexivity.
+    + injection E as <- <-. exists Lr, [], rest. rewrite !app_nil_r.
+      split; [exact A2|]. split; [exact A3|]. split; [constructor|]. split; [simpl; lia|].
+      split; [exact A1|]. split; [exact A4|]. split; [exact A6|].
+      split; [intros X; discriminate X|]. intros _ X. congruence.
+  - injection E as <- <-. exists [], [], (rq st_c). simpl. rewrite !app_nil_r.
+    split; [reflexivity|]. split; [constructor|]. split; [constructor|]. split; [lia|].
+    split; [reflexivity|]. split; [reflexivity|]. split; [reflexivity|].
+    split; [intros _; split; reflexivity|]. intros X; discriminate X.
+Qed.
+
+Theorem request_judged (ev : N) (tw : bool) st st' r :
+  rq st = [] -> fq st = [] -> nr st = 0 -> nf st = 0 ->
+  invoke_request ev l sc tw subrun st = (st', r) ->
+  exists new, log st' = log st ++ new /\ Forall (fun e => l <= e_lvl e) new /\
+    (ge_log (l + 1) new = [] \/ P (ge_log (l + 1) new)) /\
+    (Forall (fun e => e_cur e = true) new -> judge_own l sc tw (lvl_log l new) = true).
+Proof.
+  intros Hrq Hfq Hnr Hnf E. unfold invoke_request, finally in E.
+  destruct (invoke_body ev l sc tw subrun st) as [st_m r_m] eqn:Eb.
+  unfold invoke_body, bind in Eb.
+  destruct (invoke_chain ev l sc tw subrun st) as [st_c rc] eqn:Ec.
+  destruct (pres_chain ev tw _ _ _ Ec) as [nc [Lc [Fc [Rq [Fq [NRc [NFc Sc]]]]]]].
+  destruct (LP_chain ev tw _ _ _ Ec) as [nc' [Lc' CO]].
+  assert (nc' = nc) by (rewrite Lc in Lc'; apply app_inv_head in Lc'; auto). subst nc'.
+  rewrite Hrq in Rq. rewrite Hfq in Fq. simpl in Rq, Fq.
+  assert (AC : match rc with
+               | Ok v => seq (resp_loop l sc) (seq (hit0 l sc P_NEWRESP) (ret v)) st_c = (st_m, r_m)
+               | Ex k => (st_c, Ex k) = (st_m, r_m) end) by (destruct rc; exact Eb).
+  destruct (after_chain rc st_c st_m r_m AC) as [Lr [Ln [rest [Lm [Fr [Fn [Hn1 [Qc [Fm [NFm [Hno Hyes]]]]]]]]]]].
+  rewrite NRc, Hnr in Qc, Fm. rewrite NFc, Hnf in NFm.
+  unfold fin_loop in E.
+  match type of E with context [fin_cbs ?fu l sc st_m] => destruct (fin_cbs fu l sc st_m) as [st_f r_f] eqn:Ef end.
+  destruct (fin_spec l sc V _ _ _ _ (Nat.lt_succ_diag_r _) Ef) as [Lf [restf [B1 [B2 [B3 B5]]]]].
+  rewrite NFm in B1.
+  assert (st' = st_f) as -> by (destruct r_f; injection E as <- _; reflexivity).
+  assert (Or : Forall (fun e => e_lvl e = l) Lr) by (eapply Forall_impl; [|exact Fr]; intros e H; apply H).
+  assert (On : Forall (fun e => e_lvl e = l) Ln) by (eapply Forall_impl; [|exact Fn]; intros e H; apply H).
+  assert (Of : Forall (fun e => e_lvl e = l) Lf) by (eapply Forall_impl; [|exact B3]; intros e H; apply H).
+  destruct (own_all Lr Or) as [Or1 Or2]. destruct (own_all Ln On) as [On1 On2]. destruct (own_all Lf Of) as [Of1 Of2].
+  assert (HcL : Forall (fun e => is_pt P_RESP_CB e = false /\ is_pt P_NEWRESP e = false /\ is_pt P_FIN_CB e = false)
+                       (lvl_log l nc)).
+  { unfold lvl_log. rewrite Forall_forall in Fc |- *. intros e I. apply filter_In in I. destruct I as [I EL].
+    apply N.eqb_eq in EL. destruct (Fc _ I) as [[_ HA]|HL]; [|lia].
+    unfold A16 in HA. apply negb_true_iff in HA. unfold is_pt. simpl in HA.
+    apply orb_false_iff in HA. destruct HA as [H1 HA]. apply orb_false_iff in HA. destruct HA as [H2 HA].
+    apply orb_false_iff in HA. destruct HA as [H3 _]. auto. }
+  destruct (nocb_of _ HcL) as [Ncb [Z16 Z18]].
+  exists (nc ++ Lr ++ Ln ++ Lf). split; [|split; [|split]].
+  - rewrite B2, Lm, Lc, <- !app_assoc. reflexivity.
+  - repeat (apply Forall_app; split).
+    + eapply Forall_impl; [|exact Fc]. intros e [[H _]|H]; lia.
+    + eapply Forall_impl; [|exact Or]. intros e H; cbv beta in *; lia.
+    + eapply Forall_impl; [|exact On]. intros e H; cbv beta in *; lia.
+    + eapply Forall_impl; [|exact Of]. intros e H; cbv beta in *; lia.
+  - rewrite !ge_log_app, Or2, On2, Of2, !app_nil_r. exact Sc.
+  - intros Hcur. rewrite !lvl_log_app, Or1, On1, Of1.
+    apply (judge_own_shape l sc tw (lvl_log l nc) Lr Ln Lf rest).
+    + rewrite <- Or1, <- On1, <- Of1, <- !lvl_log_app. apply Forall_filter. exact Hcur.
+    + exact HcL.
+    + eapply Forall_impl; [|exact Fr]. intros e H; apply H.
+    + eapply Forall_impl; [|exact Fn]. intros e H; apply H.
+    + eapply Forall_impl; [|exact B3]. intros e H; apply H.
+    + rewrite <- Rq. exact Qc.
+    + intros X. apply Hno. rewrite <- CO. unfold cameb. rewrite <- X. f_equal.
+      unfold lvl_log. rewrite existsb_filter. reflexivity.
+    + exact Hn1.
+    + intros X. apply Hyes. rewrite <- CO. unfold cameb. rewrite <- X. f_equal.
+      unfold lvl_log. rewrite existsb_filter. reflexivity.
+    + intros HF. destruct B5 as [[_ ->]|[k [_ HF']]]; [|congruence].
+      rewrite app_nil_r in B1. rewrite <- B1, Fm, Fq. f_equal.
+      unfold registered. rewrite registered_from_app, Z16, Z18, (registered_from_nocb _ _ _ Ncb). reflexivity.
+Qed.
+
+End Request.
+
+(* ------------------------------------------------------------ the tree *)
+Lemma judge_tree_ge : forall sc k tw lg, judge_tree k sc tw (ge_log k lg) = judge_tree k sc tw lg.
+Proof.
+  fix IH 1. intros [r fs rs sb] k tw lg. simpl.
+  assert (X : lvl_log k (ge_log k lg) = lvl_log k lg).
+  { apply filter_filter_imp. intros e H. apply N.eqb_eq in H. apply N.leb_le. lia. }
+  unfold judge_level. rewrite X. f_equal. destruct sb as [|tw' sc']; [reflexivity|].
+  assert (Y : lvl_log (k + 1) (ge_log k lg) = lvl_log (k + 1) lg).
+  { apply filter_filter_imp. intros e H. apply N.eqb_eq in H. apply N.leb_le. lia. }
+  rewrite Y. destruct (lvl_log (k + 1) lg); [reflexivity|].
+  rewrite <- (IH sc' (k + 1) tw' (ge_log k lg)), <- (IH sc' (k + 1) tw' lg). f_equal.
+  apply filter_filter_imp. intros e H. apply N.leb_le in H. apply N.leb_le. lia.
+Qed.
+
+(* what run_request guarantees, as the parent request needs it *)
+Definition subP (k : N) (sc : scn) (tw : bool) (seg : list pev) : Prop :=
+  Forall (fun e => e_cur e = true) seg -> judge_tree k sc tw seg = true.
+
+Fixpoint run_request_judged (sc : scn) : forall ev l tw st st' r,
+  valid_tree sc = true -> run_request ev l sc tw st = (st', r) ->
+  exists new, log st' = log st ++ new /\ Forall (fun e => l <= e_lvl e) new /\
+    rq st' = rq st /\ fq st' = fq st /\ nr st' = nr st /\ nf st' = nf st /\ subP l sc tw new.
+Proof.
+  intros ev l tw st st' r VT E. destruct sc as [rt fs rs sb]. simpl in E.
+  unfold with_fresh_request in E.
+  match type of E with context [frame l ?m ?s0] => destruct (frame l m s0) as [st1 r1] eqn:Ef end.
+  injection E as <- <-.
+  unfold frame, seq, bind, push, upd_stk in Ef. cbn [stk log rq fq nr nf] in Ef.
+  unfold finally in Ef.
+  match type of Ef with context [invoke_request ev l ?scx tw ?sub ?s0] =>
+    destruct (invoke_request ev l scx tw sub s0) as [st2 r2] eqn:Ei end.
+  unfold pop, upd_stk in Ef. injection Ef as <- <-.
+  simpl in VT. apply andb_true_iff in VT. destruct VT as [VL VS].
+  set (scx := Scn rt fs rs sb) in *.
+  set (Psub := match sb with NoSub => never | Sub tw' sc' => subP (l + 1) sc' tw' end).
+  assert (Hsub : forall sr, match sb with NoSub => None | Sub tw' sc' => Some (run_request ev (l + 1) sc' tw') end = Some sr ->
+                 pres (Rsub l Psub) sr).
+  { intros sr Hs. destruct sb as [|tw' sc']; [discriminate|]. injection Hs as <-.
+    intros a b rr Er. destruct (run_request_judged sc' ev (l + 1) tw' a b rr VS Er) as [n [A1 [A2 [A3 [A4 [A5 [A6 A7]]]]]]].
+    exists n. repeat split; auto. }
+  pose proof (fun a b c d => request_judged l scx VL Psub _ Hsub ev tw _ _ _ a b c d Ei) as RJ.
+  destruct (RJ eq_refl eq_refl eq_refl eq_refl) as [new [L [F [S J]]]].
+  exists new. cbn [stk log rq fq nr nf] in *. repeat split; auto.
+  intros Hcur. subst scx. simpl. unfold judge_level. rewrite (J Hcur). cbn [andb].
+  destruct sb as [|tw' sc']; [reflexivity|].
+  assert (Y : lvl_log (l + 1) new = lvl_log (l + 1) (ge_log (l + 1) new)).
+  { symmetry. apply filter_filter_imp. intros e H. apply N.eqb_eq in H. apply N.leb_le. lia. }
+  destruct S as [S|S].
+  - rewrite Y, S. reflexivity.
+  - destruct (lvl_log (l + 1) new); [reflexivity|].
+    rewrite <- judge_tree_ge. apply S. apply Forall_filter. exact Hcur.
+Qed.
+
+(* the central statement: for every valid scenario tree, with or without an exception view, the run of the
+   pipeline interpreter satisfies the declarative judge of the property *)
+Theorem model_satisfies_judge : forall ev sc st r,
+  valid_tree sc = true -> run_top ev sc [] = (st, r) ->
+  judge sc (N.of_nat (length (stk st))) (log st) = true.
+Proof.
+  intros ev sc st r VT E. destruct (pipeline_depth _ _ _ _ _ E) as [S C].
+  unfold run_top in E. destruct (run_request_judged sc ev 0 true _ _ _ VT E) as [new [L [_ [_ [_ [_ [_ J]]]]]]].
+  simpl in L. unfold judge. rewrite S. simpl. rewrite L in *. apply J. exact C.
+Qed.
+
+(* non-vacuity: the example tree (fault in the parent's view, subrequest without tweens failing in its
+   renderer, callbacks registered at three points) is valid *)
+Example ex_scn_valid : valid_tree ex_scn = true.
+Proof. vm_compute. reflexivity. Qed.
